@@ -369,7 +369,7 @@ def replay_issuer_dlogs_cmd(nguesses, h):
   return bad
 
 
-def nonce_check_sound(rec, seed, check, nsigs):
+def nonce_check_sound(rec, seed, check, nsigs, mixed=False):
   """result == True  =>  DISCRETE_LOG attached and MulG(log) == issuer key."""
   from harness.props import c18  # pylint: disable=g-import-not-at-top
   pb, ec_util, util, sigc, hnp, cr50 = _mods()
@@ -383,6 +383,18 @@ def nonce_check_sound(rec, seed, check, nsigs):
              'BatchMultiplyG(d) = (MulGx(d), MulGy(d)) uninterpreted' % nsigs)
   MulGx = z3.Function('MulGx', z3.IntSort(), z3.IntSort())
   MulGy = z3.Function('MulGy', z3.IntSort(), z3.IntSort())
+  # mixed batches: the last signature is on a curve that the check visits
+  # later, with its own issuer key and its own scalar multiplication
+  later = [k for k, v in ec_util.CURVE_FACTORY.items() if v is not None]
+  cid2 = later[later.index(cid) + 1]
+  MulG2x = z3.Function('MulG2x', z3.IntSort(), z3.IntSort())
+  MulG2y = z3.Function('MulG2y', z3.IntSort(), z3.IntSort())
+  name2 = ec_util.CURVE_FACTORY[cid2].name
+  if mixed:
+    rec.bounds('%d signatures of one issuer on secp256r1 plus one signature '
+               'of another issuer on %s (symbolic key points); guess '
+               'producers arbitrary; BatchMultiplyG uninterpreted per curve'
+               % (nsigs - 1, name2))
   cexs = []
   done = 0
   chk = getattr(sigc, check)()
@@ -392,7 +404,8 @@ def nonce_check_sound(rec, seed, check, nsigs):
     return [[SInt(e.fresh('lll')) for _ in range(len(lat[0]))]]
 
   def mulg(self, scalars):
-    return [(pysym._wrap_int(MulGx(T(s))), pysym._wrap_int(MulGy(T(s))))
+    fx, fy = (MulG2x, MulG2y) if self.name == name2 else (MulGx, MulGy)
+    return [(pysym._wrap_int(fx(T(s))), pysym._wrap_int(fy(T(s))))
             for s in scalars]
 
   def hnp_curve(a, b, curve_type, lcg, flags):
@@ -401,11 +414,16 @@ def nonce_check_sound(rec, seed, check, nsigs):
 
   def run(e):
     kx, ky = ivar(e, 'kx', lo=0), ivar(e, 'ky', lo=0)
+    k2x, k2y = ivar(e, 'k2x', lo=0), ivar(e, 'k2y', lo=0)
+    e.notes.update(k2x=k2x, k2y=k2y)
     sigs = []
     for i in range(nsigs):
       s = pb.ECDSASignature()
       s.issuer_key_info.curve_type = cid
       s.issuer_key_info.x, s.issuer_key_info.y = kx, ky
+      if mixed and i == nsigs - 1:
+        s.issuer_key_info.curve_type = cid2
+        s.issuer_key_info.x, s.issuer_key_info.y = k2x, k2y
       s.ecdsa_sig_info.r = 1000 + i
       s.ecdsa_sig_info.s = ivar(e, 's%d' % i, lo=1, hi=n)
       s.ecdsa_sig_info.message_hash = c18.HashVal(
@@ -445,8 +463,13 @@ def nonce_check_sound(rec, seed, check, nsigs):
         flagged = pysym.sbool(ents[0].result)
         if mine:
           v = mine[-1][2]
-          ok = z3.And(z3.BoolVal(mine[-1][1] == 'DISCRETE_LOG'),
-                      MulGx(T(v)) == kx, MulGy(T(v)) == ky)
+          if mixed and s is sigs[-1]:
+            ok = z3.And(z3.BoolVal(mine[-1][1] == 'DISCRETE_LOG'),
+                        MulG2x(T(v)) == e.notes['k2x'].t,
+                        MulG2y(T(v)) == e.notes['k2y'].t)
+          else:
+            ok = z3.And(z3.BoolVal(mine[-1][1] == 'DISCRETE_LOG'),
+                        MulGx(T(v)) == kx, MulGy(T(v)) == ky)
         else:
           ok = z3.BoolVal(False)
         goal = z3.And(goal, z3.Implies(flagged, ok),
@@ -495,17 +518,45 @@ def replay_nonce_check(check):
     sg.ecdsa_sig_info.s = util.Int2Bytes(s)
     sg.ecdsa_sig_info.message_hash = z.to_bytes(32, 'big')
     sigs.append(sg)
+  owners = [(c, pk)] * len(sigs)
+  # healthy signatures of other issuers on curves the check visits later
+  for cid_o in [k_ for k_, v_ in ec_util.CURVE_FACTORY.items()
+                if v_ is not None and k_ != 2][:3]:
+    co = ec_util.CURVE_FACTORY[cid_o]
+    no = int(co.n)
+    do = int.from_bytes(hashlib.sha512(b'd%d' % cid_o).digest(), 'big') % no
+    pko = co.Multiply(co.g, do)
+    for i in range(3):
+      k = int.from_bytes(hashlib.sha512(b'k%d_%d' % (cid_o, i)).digest() * 2,
+                         'big') % no or 1
+      z = int.from_bytes(hashlib.sha256(b'm%d_%d' % (cid_o, i)).digest(),
+                         'big')
+      zt = co.TransformOrderLen(z, 256)
+      r = int(co.Multiply(co.g, k)[0]) % no
+      s_ = pow(k, -1, no) * (zt + r * do) % no
+      if not r or not s_:
+        continue
+      sg = pb.ECDSASignature()
+      sg.issuer_key_info.curve_type = cid_o
+      sg.issuer_key_info.x = util.Int2Bytes(int(pko[0]))
+      sg.issuer_key_info.y = util.Int2Bytes(int(pko[1]))
+      sg.ecdsa_sig_info.r = util.Int2Bytes(r)
+      sg.ecdsa_sig_info.s = util.Int2Bytes(s_)
+      sg.ecdsa_sig_info.message_hash = z.to_bytes(32, 'big')
+      sigs.append(sg)
+      owners.append((co, pko))
   try:
     getattr(sigc, check)().Check(sigs)
   except Exception as ex:  # pylint: disable=broad-except
     return True, 'raised %r' % (ex,)
-  for sg in sigs:
+  for sg, (co, pko) in zip(sigs, owners):
     ent = [r_ for r_ in sg.test_info.test_results if r_.test_name == check]
     if ent and ent[0].result:
       info = util.GetAttachedInfo(sg.test_info, 'DISCRETE_LOG')
-      if info is None or c.Multiply(c.g, int(info.value, 16)) != pk:
-        return True, 'signature marked weak with log %r that does not ' \
-            'generate the issuer key' % (info.value if info else None)
+      if info is None or co.Multiply(co.g, int(info.value, 16)) != pko:
+        return True, 'signature on %s marked weak with log %r that does ' \
+            'not generate its issuer key' % (co.name,
+                                             info.value if info else None)
   return False, 'every flagged signature carries a verifiable key'
 
 
@@ -558,6 +609,9 @@ def jobs(tier, seed):
     for ns_ in ([1, 2] if not thorough else [1, 2, 3]):
       out.append(Job('nonce_sound_%s_%d' % (check, ns_), nonce_check_sound,
                      dict(check=check, nsigs=ns_), timeout=3000, cost=30))
+    out.append(Job('nonce_sound_%s_mixed' % check, nonce_check_sound,
+                   dict(check=check, nsigs=2, mixed=True), timeout=3000,
+                   cost=40))
   for qb in ([2, 72] if not thorough else [2, 4, 5, 6, 72]):
     for shape in ('shift', 'repeat'):
       for neg in (False, True):
